@@ -1376,8 +1376,32 @@ impl RustRuleEngine {
         let mut split_pos = None;
         let mut found_op = "";
 
+        // The comparison operator is looked for outside string literals: `S.a + S.b == "x>=y"`
+        // has one operator, the `>=` inside the literal is part of the value
+        fn rfind_outside_strings(expr: &str, op: &str) -> Option<usize> {
+            let mut quote: Option<char> = None;
+            let mut last = None;
+            for (i, ch) in expr.char_indices() {
+                match quote {
+                    Some(q) => {
+                        if ch == q {
+                            quote = None;
+                        }
+                    }
+                    None => {
+                        if ch == '"' || ch == '\'' {
+                            quote = Some(ch);
+                        } else if expr[i..].starts_with(op) {
+                            last = Some(i);
+                        }
+                    }
+                }
+            }
+            last
+        }
+
         for op in &operators {
-            if let Some(pos) = expr.rfind(op) {
+            if let Some(pos) = rfind_outside_strings(expr, op) {
                 split_pos = Some(pos);
                 found_op = op;
                 break;
